@@ -1700,7 +1700,7 @@ theorem balWalk_sound : ∀ (toks : List Tok) (d d' : Nat), balWalk toks d = som
         | succ d0 =>
           simp only at h
           have hz : (l + ((d0 + 1 : Nat) : Int)) - 1 ≠ 0 := by push_cast; omega
-          simp only [hs, he, if_false, if_true, hz]
+          simp only [hs, he, if_false, if_true, reduceCtorEq, hz]
           have e : l + ((d0 + 1 : Nat) : Int) - 1 = l + (d0 : Int) := by push_cast; omega
           rw [e, balWalk_sound ts d0 d' h child more rest l (out ++ t.raw) hl, rawsOf_cons,
             List.append_assoc]
@@ -1848,6 +1848,251 @@ mutual
       simp only [Bool.and_eq_true] at h
       exact ⟨anyDomAPB_sound n h.1, anyDomAPListB_sound ns h.2⟩
 end
+
+def targetRB (P : List Bytes) (cur : Bytes) (knd : ElKind) (cs : List Node) : Bool :=
+  match knd with
+  | .normal => !isVoid cur && (innerToks vt .normal cs).all (neutralB P)
+  | .raw => !isVoid cur
+  | .void => isVoid cur
+  | .selfClosing => true
+
+theorem targetRB_sound {P : List Bytes} {cur : Bytes} {knd : ElKind} {cs : List Node}
+    (h : targetRB vt P cur knd cs = true) : TargetR vt P cur knd cs := by
+  unfold targetRB at h
+  unfold TargetR
+  cases knd with
+  | normal =>
+    simp only [Bool.and_eq_true, Bool.not_eq_true'] at h
+    exact ⟨h.1, all_neutralB_sound h.2⟩
+  | raw => simpa using h
+  | void => simpa using h
+  | selfClosing => trivial
+
+def targetsDomB (P : List Bytes) (cur : Bytes) : List Node → Bool
+  | [] => true
+  | n :: ns =>
+    (match n with
+     | .el nm _ _ knd cs => if nm = cur then targetRB vt P cur knd cs else (tokensOf vt n).all (neutralB P)
+     | .verb raw _ => (vt raw).all (neutralB P)) && targetsDomB P cur ns
+
+theorem targetsDomB_sound {P : List Bytes} {cur : Bytes} :
+    ∀ ns : List Node, targetsDomB vt P cur ns = true → TargetsDom vt P cur ns
+  | [], _ => trivial
+  | n :: ns, h => by
+    unfold targetsDomB at h
+    simp only [Bool.and_eq_true] at h
+    refine ⟨?_, targetsDomB_sound ns h.2⟩
+    cases n with
+    | verb raw m => exact all_neutralB_sound h.1
+    | el nm d at_ knd cs =>
+      simp only at h ⊢
+      by_cases hnm : nm = cur
+      · rw [if_pos hnm] at h ⊢; exact targetRB_sound vt h.1
+      · rw [if_neg hnm] at h ⊢; exact all_neutralB_sound h.1
+
+def childDomRB (P : List Bytes) : List Bytes → Bytes → ElKind → List Node → Bool
+  | [], cur, knd, cs => targetRB vt P cur knd cs
+  | [a], cur, knd, cs => knd == .normal && !isVoid cur && targetsDomB vt P a cs && cs.any (hitB a)
+  | a :: r :: rs, cur, knd, cs =>
+    knd == .normal && !isVoid cur &&
+    (match cutAt a cs with
+     | none => false
+     | some (pre, (_, _, knd', cs'), post) =>
+       freeLB vt P pre && freeLB vt P post && childDomRB P (r :: rs) a knd' cs')
+
+theorem childDomRB_sound {P : List Bytes} : ∀ (after : List Bytes) (cur : Bytes) (knd : ElKind) (cs : List Node),
+    childDomRB vt P after cur knd cs = true → ChildDomR vt P after cur knd cs
+  | [], cur, knd, cs, h => targetRB_sound vt h
+  | [a], cur, knd, cs, h => by
+    unfold childDomRB at h
+    simp only [Bool.and_eq_true, beq_iff_eq, Bool.not_eq_true'] at h
+    exact ⟨h.1.1.1, h.1.1.2, targetsDomB_sound vt cs h.1.2, h.2⟩
+  | a :: r :: rs, cur, knd, cs, h => by
+    unfold childDomRB at h
+    simp only [Bool.and_eq_true, beq_iff_eq, Bool.not_eq_true'] at h
+    obtain ⟨⟨h1, h2⟩, h3⟩ := h
+    cases hc : cutAt a cs with
+    | none => rw [hc] at h3; cases h3
+    | some x =>
+      obtain ⟨pre, ⟨d', at', knd', cs'⟩, post⟩ := x
+      rw [hc] at h3
+      simp only [Bool.and_eq_true] at h3
+      exact ⟨h1, h2, pre, d', at', knd', cs', post, cutAt_sound hc, freeLB_sound vt h3.1.1,
+        freeLB_sound vt h3.1.2, childDomRB_sound (r :: rs) a knd' cs' h3.2⟩
+
+section checkgen
+variable (P : List Bytes) (p1 : Bytes) (HitB : Bytes → Bytes → ElKind → List Node → Bool)
+
+mutual
+  def anyDomGB : Node → Bool
+    | .verb raw _ => (vt raw).all (neutralB P)
+    | .el nm d at_ knd cs =>
+      if nm = p1 then HitB d at_ knd cs
+      else !P.contains nm &&
+        (match knd with
+         | .normal => anyDomGListB cs
+         | _ => true)
+  def anyDomGListB : List Node → Bool
+    | [] => true
+    | n :: ns => anyDomGB n && anyDomGListB ns
+end
+
+mutual
+  def oneHitB : Node → Bool
+    | .verb _ _ => false
+    | .el nm d at_ knd cs =>
+      if nm = p1 then HitB d at_ knd cs
+      else !P.contains nm && knd == .normal && oneHitLB cs
+  def oneHitLB : List Node → Bool
+    | [] => false
+    | n :: ns => (oneHitB n && freeLB vt P ns) || ((tokensOf vt n).all (neutralB P) && oneHitLB ns)
+end
+
+variable {Hit : Bytes → Bytes → ElKind → List Node → Prop}
+variable (hHit : ∀ d at_ knd cs, HitB d at_ knd cs = true → Hit d at_ knd cs)
+
+include hHit in
+mutual
+  theorem anyDomGB_sound : ∀ n : Node, anyDomGB vt P p1 HitB n = true → AnyDomG vt P p1 Hit n
+    | .verb raw _, h => by
+      unfold AnyDomG
+      exact all_neutralB_sound (by simpa [anyDomGB] using h)
+    | .el nm d at_ knd cs, h => by
+      unfold anyDomGB at h
+      unfold AnyDomG
+      by_cases hnm : nm = p1
+      · rw [if_pos hnm] at h ⊢; exact hHit d at_ knd cs h
+      · rw [if_neg hnm] at h ⊢
+        simp only [Bool.and_eq_true, Bool.not_eq_true'] at h
+        refine ⟨by simpa using h.1, ?_⟩
+        cases knd with
+        | normal => exact anyDomGListB_sound cs h.2
+        | _ => trivial
+  theorem anyDomGListB_sound : ∀ ns : List Node, anyDomGListB vt P p1 HitB ns = true →
+      AnyDomGList vt P p1 Hit ns
+    | [], _ => by unfold AnyDomGList; trivial
+    | n :: ns, h => by
+      unfold anyDomGListB at h
+      unfold AnyDomGList
+      simp only [Bool.and_eq_true] at h
+      exact ⟨anyDomGB_sound n h.1, anyDomGListB_sound ns h.2⟩
+end
+
+include hHit in
+mutual
+  theorem oneHitB_sound : ∀ n : Node, oneHitB vt P p1 HitB n = true → OneHit vt P p1 Hit n
+    | .verb _ _, h => by simp [oneHitB] at h
+    | .el nm d at_ knd cs, h => by
+      unfold oneHitB at h
+      unfold OneHit
+      by_cases hnm : nm = p1
+      · rw [if_pos hnm] at h ⊢; exact hHit d at_ knd cs h
+      · rw [if_neg hnm] at h ⊢
+        simp only [Bool.and_eq_true, Bool.not_eq_true', beq_iff_eq] at h
+        exact ⟨by simpa using h.1.1, h.1.2, oneHitLB_sound cs h.2⟩
+  theorem oneHitLB_sound : ∀ ns : List Node, oneHitLB vt P p1 HitB ns = true → OneHitL vt P p1 Hit ns
+    | [], h => by simp [oneHitLB] at h
+    | n :: ns, h => by
+      unfold oneHitLB at h
+      unfold OneHitL
+      simp only [Bool.or_eq_true, Bool.and_eq_true] at h
+      rcases h with h | h
+      · exact Or.inl ⟨oneHitB_sound n h.1, freeLB_sound vt h.2⟩
+      · exact Or.inr ⟨all_neutralB_sound h.1, oneHitLB_sound ns h.2⟩
+end
+
+end checkgen
+
+/-- the executable domain check of one filter on one document -/
+def inDomainB (doc : List Node) (f : BodyFilter) : Bool :=
+  match f with
+  | .text _ _ => false
+  | .html action path sel value =>
+    match path with
+    | [] => false
+    | p1 :: ps =>
+      if action = Rio.Consts.filterActionAppend then anyDomAPListB tk .append sel vt (p1 :: ps) p1 ps doc
+      else if action = Rio.Consts.filterActionPrepend then anyDomAPListB tk .prepend sel vt (p1 :: ps) p1 ps doc
+      else if action = Rio.Consts.filterActionReplace then
+        match ps with
+        | [] => anyDomGListB vt [p1] p1 (fun _ _ knd cs => targetRB vt [p1] p1 knd cs) doc
+        | a :: rest =>
+          decide ((p1 :: a :: rest).Nodup) &&
+          oneHitLB vt (p1 :: a :: rest) p1 (fun _ _ knd cs => childDomRB vt (p1 :: a :: rest) (a :: rest) p1 knd cs) doc
+      else false
+
+theorem inDomainB_sound {doc : List Node} {f : BodyFilter} (h : inDomainB tk vt doc f = true) :
+    InDomain tk vt doc f := by
+  unfold inDomainB at h
+  cases f with
+  | text _ _ => cases h
+  | html action path sel value =>
+    simp only at h
+    cases path with
+    | nil => cases h
+    | cons p1 ps =>
+      simp only at h
+      by_cases h1 : action = Rio.Consts.filterActionAppend
+      · rw [if_pos h1] at h; subst h1
+        exact .append p1 ps sel value (anyDomAPListB_sound tk .append sel vt doc h)
+      · rw [if_neg h1] at h
+        by_cases h2 : action = Rio.Consts.filterActionPrepend
+        · rw [if_pos h2] at h; subst h2
+          exact .prepend p1 ps sel value (anyDomAPListB_sound tk .prepend sel vt doc h)
+        · rw [if_neg h2] at h
+          by_cases h3 : action = Rio.Consts.filterActionReplace
+          · rw [if_pos h3] at h; subst h3
+            cases ps with
+            | nil =>
+              exact .replace1 p1 sel value (anyDomGListB_sound vt [p1] p1 _
+                (fun _ _ knd cs hh => targetRB_sound vt hh) doc h)
+            | cons a rest =>
+              simp only [Bool.and_eq_true, decide_eq_true_eq] at h
+              exact .replaceN p1 a rest sel value h.1 (oneHitLB_sound vt _ p1 _
+                (fun _ _ knd cs hh => childDomRB_sound vt (a :: rest) p1 knd cs hh) doc h.2)
+          · rw [if_neg h3] at h; cases h
+
+def tokAgreeB (doc : List Node) : Bool :=
+  decide (tk (serializeList doc) = (tokensOfList vt doc, [])) &&
+  decide (utf8Split (serializeList doc) = some (serializeList doc, [])) &&
+  decide (splitHeld (tokensOfList vt doc) = (tokensOfList vt doc, []))
+
+theorem tokAgreeB_sound {doc : List Node} (h : tokAgreeB tk vt doc = true) : TokAgree tk vt doc := by
+  unfold tokAgreeB at h
+  simp only [Bool.and_eq_true, decide_eq_true_eq] at h
+  exact ⟨h.1.1, h.1.2, h.2⟩
+
+/-- the executable check of `StepsOK` -/
+def stepsOKB : List Node → List BodyFilter → Bool
+  | _, [] => true
+  | d, f :: fs =>
+    inDomainB tk vt d f && tokAgreeB tk vt d &&
+    (fs.isEmpty || !(serializeList (editD (decOf ev) d f)).isEmpty) &&
+    stepsOKB (editD (decOf ev) d f) fs
+
+theorem stepsOKB_sound : ∀ (fs : List BodyFilter) (d : List Node), stepsOKB tk ev vt d fs = true →
+    StepsOK tk ev vt d fs
+  | [], _, _ => trivial
+  | f :: fs, d, h => by
+    unfold stepsOKB at h
+    simp only [Bool.and_eq_true, Bool.or_eq_true, Bool.not_eq_true', List.isEmpty_eq_false_iff] at h
+    obtain ⟨⟨⟨h1, h2⟩, h3⟩, h4⟩ := h
+    refine ⟨inDomainB_sound tk vt h1, tokAgreeB_sound tk vt h2, ?_, stepsOKB_sound fs _ h4⟩
+    intro hne
+    rcases h3 with h3 | h3
+    · exact absurd (List.isEmpty_iff.mp h3) hne
+    · exact h3
+
+/-- a lossless view of verbatim pieces built from any tokenizer: its tokens when they cover the piece, one text token otherwise -/
+def vtOf (tk : Tokenize) : Bytes → List Tok := fun raw =>
+  if rawsOf (tk raw).1 = raw then (tk raw).1 else textToks raw
+
+theorem vtOf_lossless (tk : Tokenize) : VtLossless (vtOf tk) := by
+  intro raw
+  unfold vtOf
+  split
+  · assumption
+  · exact rawsOf_textToks raw
 
 end
 
